@@ -5,6 +5,7 @@ mod c14;
 mod c01;
 mod c04;
 mod c07;
+mod c08;
 mod c10;
 mod c11;
 mod c16;
@@ -65,6 +66,7 @@ fn main() {
             "C01" => c01::replay(case),
             "C04" => c04::replay(case),
             "C07" => c07::replay(case),
+            "C08" => c08::replay(case),
             "C10" => c10::replay(case),
             "C11" => c11::replay(case),
             "C16" => c16::replay(case),
@@ -79,6 +81,7 @@ fn main() {
         "C01" => c01::run(&a),
         "C04" => c04::run(&a),
         "C07" => c07::run(&a),
+        "C08" => c08::run(&a),
         "C10" => c10::run(&a),
         "C11" => c11::run(&a),
         "C16" => c16::run(&a),
